@@ -139,8 +139,10 @@ uri, pidfiles = sys.argv[1], json.loads(sys.argv[2])
 p = Path(uri).with_suffix(".pid")
 hit = None
 for name, f in pidfiles.items():
+    # which job the path names: the directory it leads to and the file name in it (the job directory stays when the job has
+    # ended, so the answer does not depend on when the question is asked)
     try:
-        if p.exists() and os.path.samefile(p, f):
+        if p.name == os.path.basename(f) and p.parent.is_dir() and os.path.samefile(p.parent, os.path.dirname(f)):
             hit = name
     except OSError:
         pass
@@ -234,7 +236,7 @@ def attempt(root, k, hkind, ckind, total, hold=3.0, startup=90.0):
         marker = adir / f"{who}.submitted"
         out = open(adir / f"{who}.out", "w")
         common_args = {"x": x, "count": count, "total": total, "log": str(logf), "go": str(go), "marker": str(marker),
-                       "pkg": str(root / "pkg"), "maxwait": 60.0}
+                       "pkg": str(root / "pkg"), "maxwait": 600.0}
         if kind.startswith("api-"):
             cmd = [sys.executable, str(root / "api_main.py"), json.dumps(dict(common_args, how=kind, dir=d, who=who))]
         else:
@@ -287,7 +289,7 @@ def attempt(root, k, hkind, ckind, total, hold=3.0, startup=90.0):
         res = {}
         for who, cwd in (("a", cwd_a), ("b", adir / "b"), ("h", adir)):
             r = subprocess.run([sys.executable, str(root / "resolve_main.py"), uri, json.dumps({"A": str(pidfile)})], cwd=cwd,
-                               capture_output=True, text=True, timeout=30)
+                               capture_output=True, text=True, timeout=300)
             res[who] = json.loads(r.stdout.strip().splitlines()[-1])
         obs["resolved"] = res
         # --- the contender
